@@ -128,6 +128,20 @@ func (s MsgServer) AddDelegate(c context.Context, msg *types.MsgAddDelegate) (*t
 
 	delegateCoin := types.NewDelegateAmount(msg.Amount.Amount.Sub(slashAmount.Amount))
 
+	// an oracle that was removed by a proposal had its stake undelegated. When it joins again
+	// that stake is still part of the recorded delegate amount: it must have left the unbonding
+	// queue and is delegated again, so that what is recorded is what is staked.
+	returnedStake := sdkmath.ZeroInt()
+	if !oracle.Online {
+		delegateAddr := oracle.GetDelegateAddress(s.moduleName)
+		if _, err = s.stakingKeeper.GetDelegation(ctx, delegateAddr, oracle.GetValidator()); errors.Is(err, stakingtypes.ErrNoDelegation) {
+			if _, err = s.stakingKeeper.GetUnbondingDelegation(ctx, delegateAddr, oracle.GetValidator()); err == nil {
+				return nil, types.ErrInvalid.Wrapf("exist unbonding delegation")
+			}
+			returnedStake = sdkmath.MinInt(s.bankKeeper.GetAllBalances(ctx, delegateAddr).AmountOf(threshold.Denom), oracle.DelegateAmount)
+		}
+	}
+
 	oracle.DelegateAmount = oracle.DelegateAmount.Add(delegateCoin.Amount)
 	if oracle.DelegateAmount.Sub(threshold.Amount).IsNegative() {
 		return nil, types.ErrDelegateAmountBelowMinimum
@@ -145,12 +159,14 @@ func (s MsgServer) AddDelegate(c context.Context, msg *types.MsgAddDelegate) (*t
 		}
 	}
 
-	if delegateCoin.IsPositive() {
+	if delegateCoin.IsPositive() || returnedStake.IsPositive() {
 		delegateAddr := oracle.GetDelegateAddress(s.moduleName)
-		if err = s.bankKeeper.SendCoins(ctx, oracleAddr, delegateAddr, sdk.NewCoins(delegateCoin)); err != nil {
-			return nil, err
+		if delegateCoin.IsPositive() {
+			if err = s.bankKeeper.SendCoins(ctx, oracleAddr, delegateAddr, sdk.NewCoins(delegateCoin)); err != nil {
+				return nil, err
+			}
 		}
-		msgDelegate := stakingtypes.NewMsgDelegate(delegateAddr.String(), oracle.GetValidator().String(), delegateCoin)
+		msgDelegate := stakingtypes.NewMsgDelegate(delegateAddr.String(), oracle.GetValidator().String(), delegateCoin.AddAmount(returnedStake))
 		if _, err = s.stakingMsgServer.Delegate(c, msgDelegate); err != nil {
 			return nil, err
 		}
